@@ -208,24 +208,24 @@ structure LineFormat (good : UInt8 → Bool) (rows : Bytes → Res (List Row)) (
   fields : (∀ L r, recS L = .ok (some r) → r.fields = []) ∨
     (∀ L r, recS L = .ok (some r) → r.fields.length = r.idx.length)
 
-/-- a parser whose block is *always* the fold of its line records (libsvm, libfm) -/
-theorem LineFormat.ofBlockEq {rows : Bytes → Res (List Row)} {recS : Bytes → Res (Option LineRec)}
-    (block_eq : ∀ t, (codeLines t).length + 2 < 2 ^ 64 →
+/-- a parser whose block (on good texts) is the fold of its line records, errors included -/
+theorem LineFormat.ofBlockEq {good : UInt8 → Bool} {rows : Bytes → Res (List Row)} {recS : Bytes → Res (Option LineRec)}
+    (block_eq : ∀ t, (∀ b ∈ t, good b = true) → t.length + 2 < 2 ^ 64 →
       rows t = ((codeLines t).mapM recS).bind fun outs => rowsOf (build (outs.filterMap id)))
     (strip : ∀ L, recS (stripEol L) = recS L) (nil : recS [] = .ok none)
     (fields : (∀ L r, recS L = .ok (some r) → r.fields = []) ∨
       (∀ L r, recS L = .ok (some r) → r.fields.length = r.idx.length)) :
-    LineFormat (fun _ => true) rows recS where
-  block_ok := fun t outs _ hb ho => by
-    rw [block_eq t (by have := codeLines_length t; omega), ho]; rfl
-  rows_single := fun l _ _ h => by
+    LineFormat good rows recS where
+  block_ok := fun t outs hg hb ho => by
+    rw [block_eq t hg hb, ho]; rfl
+  rows_single := fun l hg hb h => by
     cases l with
     | nil =>
-      rw [block_eq [] (by simp [codeLines])]
+      rw [block_eq [] (by simp) (by simp)]
       simp [codeLines, single, nil, pure, Except.pure, Except.bind]
     | cons b s =>
       have hs : ∀ x ∈ s, isEolB x = false := fun x hx => h x (by simp [hx])
-      rw [block_eq (b :: s) (by rw [codeLines_single b s hs]; simp), codeLines_single b s hs]
+      rw [block_eq (b :: s) hg hb, codeLines_single b s hs]
       simp only [List.mapM_cons, List.mapM_nil, single, bind, Except.bind, pure, Except.pure]
       cases recS (b :: s) with
       | error e => rfl
